@@ -161,6 +161,18 @@ func (db *DB) collectGarbage() (collectedCount uint64, done bool, err error) {
 		addr := boson.NewAddress(item.Address)
 		verifhook.PointArg("localstore.gc.candidate", addr) // no-op unless built with tag verif
 
+		// a file whose root chunk is pinned is not cache: it stays stored and
+		// known to chunkinfo (which protects the chunks it shares with other
+		// files), only its cache entry is dropped
+		rootPinned, err := db.pinIndex.Has(item)
+		if err != nil {
+			return 0, false, err
+		}
+		if rootPinned {
+			recycledItems = append(recycledItems, item)
+			continue
+		}
+
 		if db.discover.IsDiscover(addr) {
 			db.discover.DelDiscover(addr)
 		}
